@@ -302,6 +302,7 @@ type runObs struct {
 	Files          map[string]string
 	Decoy          map[string]string // run A: the working directory (must stay as created)
 	ShadowPrefix   string
+	Stale          []string // warm runs: names opened through the previous Execute's open function
 }
 
 func populate(dir string, content func(string) string) error {
@@ -391,6 +392,17 @@ func (b *lockedBuf) String() string {
 
 // runImpl executes the case once. hook=true is run A, hook=false is run B.
 func runImpl(k kase, hook bool, root string) (obs runObs, herr error) {
+	return runImplW(k, hook, root, 0)
+}
+
+// runImplW: warm = 0 is one ExecProgram on a new interpreter.  warm = 1, 2: the observed run is
+// the SECOND Execute of one interp.Interpreter (New, Execute, ResetVars, Execute) whose first
+// Execute had a different configuration: the other kind of open function (none if the observed
+// run has a custom one, a recording "stale" one otherwise) and, warm = 1, all three deny flags
+// set, or, warm = 2, none of them (the directories and the command log are then put back as
+// they were before the observed run).  The flags and the open function are "copied from Config
+// at each Execute": the second run must behave like a run on a new interpreter.
+func runImplW(k kase, hook bool, root string, warm int) (obs runObs, herr error) {
 	src, pc := k.program()
 	dir, err := os.MkdirTemp(root, "run")
 	if err != nil {
@@ -466,11 +478,64 @@ func runImpl(k kase, hook bool, root string) (obs runObs, herr error) {
 				obs.Panic = fmt.Sprint(r)
 			}
 		}()
-		_, err := interp.ExecProgram(prog, cfg)
+		if warm == 0 {
+			_, err := interp.ExecProgram(prog, cfg)
+			if err != nil {
+				obs.Err = err.Error()
+			}
+			return
+		}
+		p, err := interp.New(prog)
+		if err != nil {
+			herr = err
+			return
+		}
+		inObserved := false
+		prime := *cfg
+		var pout, perr lockedBuf
+		prime.Stdin, prime.Output, prime.Error = strings.NewReader(stdin), &pout, &perr
+		deny := warm == 1
+		prime.NoExec, prime.NoFileWrites, prime.NoFileReads = deny, deny, deny
+		if hook {
+			prime.OpenFile = nil
+		} else {
+			prime.OpenFile = func(name string, flag int, perm os.FileMode) (*os.File, error) {
+				if inObserved {
+					obs.Stale = append(obs.Stale, name)
+				}
+				return os.OpenFile(name, flag, perm)
+			}
+		}
+		func() {
+			defer func() { recover() }()
+			p.Execute(&prime)
+		}()
+		// put everything back as a first run finds it
+		for _, d := range []string{work, shadow} {
+			ents, _ := os.ReadDir(d)
+			for _, e := range ents {
+				os.RemoveAll(filepath.Join(d, e.Name()))
+			}
+		}
+		os.Remove(logf)
+		if hook {
+			populate(work, decoyContent)
+			populate(shadow, sameContent)
+		} else {
+			populate(work, sameContent)
+		}
+		p.ResetVars()
+		p.ResetRand()
+		inObserved = true
+		obs.Opens = nil
+		_, err = p.Execute(cfg)
 		if err != nil {
 			obs.Err = err.Error()
 		}
 	}()
+	if herr != nil {
+		return obs, herr
+	}
 	obs.Stdout, obs.Stderr = out.String(), eb.String()
 	if b, err := os.ReadFile(logf); err == nil {
 		for _, l := range strings.Split(strings.TrimSpace(string(b)), "\n") {
@@ -965,6 +1030,29 @@ func oracle(k kase, hook bool, o runObs, rep *hx.Report) {
 	}
 }
 
+// opensKey: the recorded opens without the error text (which names the run's own directory)
+func opensKey(rs []openRec) string {
+	var sb strings.Builder
+	for _, r := range rs {
+		fmt.Fprintf(&sb, "%q/%s/%s;", r.Name, r.Flag, r.Res)
+	}
+	return sb.String()
+}
+
+// oracleW: the property's clauses on the second Execute of a reused interpreter
+func oracleW(k kase, hook bool, warm int, o runObs, rep *hx.Report) {
+	n := len(rep.Failures)
+	oracle(k, hook, o, rep)
+	for i := n; i < len(rep.Failures); i++ {
+		rep.Failures[i].Detail["warm"] = warm
+		rep.Failures[i].Detail["history"] = "second Execute of a reused Interpreter; the first had the other kind of open function and " + map[int]string{1: "all three deny flags", 2: "no deny flag"}[warm]
+	}
+	if len(o.Stale) > 0 {
+		rep.Fail(hx.Failure{Class: "file-opened-through-previous-OpenFile/reused-interpreter", Oracle: "the open function is the one of this Execute's Config",
+			Detail: detail(k, hook, o, map[string]any{"warm": warm, "opened_through_previous_function": fmt.Sprint(o.Stale)})})
+	}
+}
+
 // stdinOracle: standard input stays available under every flag combination
 func stdinOracle(rep *hx.Report, root string) {
 	progs := []struct {
@@ -1228,10 +1316,30 @@ type workerResult struct {
 	A, B runObs
 	OK   bool
 	Errs []string
+	W     runObs // the warm run (second Execute of a reused interpreter)
+	WHook bool
+	WMode int
+	WOK   bool
 }
 
 var tSpawn, tNoSpawn time.Duration
 var nSpawn, nNoSpawn int
+
+var warmCounter int
+
+// warmRun: the case once more as the second Execute of a reused interpreter; which of the
+// four (open function kind x priming flags) variants is taken rotates from case to case
+func warmRun(k kase, root string, rep *hx.Report) (runObs, bool, int, bool) {
+	warmCounter++
+	hook := warmCounter%2 == 0
+	warm := 1 + (warmCounter/2)%2
+	w, err := runImplW(k, hook, root, warm)
+	if err != nil {
+		rep.HarnessError("warm run: %v", err)
+		return w, hook, warm, false
+	}
+	return w, hook, warm, true
+}
 
 func evalCase(k kase, root string, rep *hx.Report) (string, runObs, runObs, bool) {
 	t0 := time.Now()
@@ -1302,7 +1410,8 @@ func main() {
 				continue
 			}
 			line, a, b, ok := evalCase(k, root, rep)
-			enc.Encode(workerResult{Idx: idx, Line: line, A: a, B: b, OK: ok, Errs: rep.HarnessErrors})
+			w, wh, wm, wok := warmRun(k, root, rep)
+			enc.Encode(workerResult{Idx: idx, Line: line, A: a, B: b, OK: ok, Errs: rep.HarnessErrors, W: w, WHook: wh, WMode: wm, WOK: wok})
 			rep.HarnessErrors = nil
 		}
 		return
@@ -1324,7 +1433,8 @@ func main() {
 	if nw == 1 {
 		for idx, k := range ks {
 			line, a, b, ok := evalCase(k, root, rep)
-			results[idx] = &workerResult{Idx: idx, Line: line, A: a, B: b, OK: ok}
+			w, wh, wm, wok := warmRun(k, root, rep)
+			results[idx] = &workerResult{Idx: idx, Line: line, A: a, B: b, OK: ok, W: w, WHook: wh, WMode: wm, WOK: wok}
 		}
 	}
 	for i := 0; i < nw && nw > 1; i++ {
@@ -1363,6 +1473,7 @@ func main() {
 	as := make([]runObs, 0, len(ks))
 	bs := make([]runObs, 0, len(ks))
 	kept := make([]kase, 0, len(ks))
+	var ws []*workerResult
 	for idx, k := range ks {
 		wr := results[idx]
 		if wr == nil {
@@ -1376,6 +1487,7 @@ func main() {
 		lines = append(lines, wr.Line)
 		as = append(as, wr.A)
 		bs = append(bs, wr.B)
+		ws = append(ws, wr)
 	}
 	model, err := hx.ModelEval(o.ModelRun, lines)
 	if err != nil {
@@ -1411,6 +1523,24 @@ func main() {
 		}
 		oracle(k, true, a, rep)
 		oracle(k, false, b, rep)
+		// the same case as the second Execute of a reused interpreter configured differently before
+		if wr := ws[i]; wr.WOK {
+			w, cold := wr.W, b
+			if wr.WHook {
+				cold = a
+			}
+			rep.CorrEvals++
+			rep.Count(fmt.Sprintf("reused-interpreter:custom-open=%v,primed-with=%s", wr.WHook, map[int]string{1: "deny-all", 2: "allow-all"}[wr.WMode]))
+			if w.Stdout != cold.Stdout || normErr(w) != normErr(cold) || !sameMap(w.Files, cold.Files) || fmt.Sprint(w.Execs) != fmt.Sprint(cold.Execs) ||
+				countStartFailures(w.Stderr) != countStartFailures(cold.Stderr) || opensKey(w.Opens) != opensKey(cold.Opens) {
+				src, _ := k.program()
+				rep.Mismatch(hx.Mismatch{Class: corrClass(k) + "/reused-interpreter", Input: lines[i],
+					Impl:  fmt.Sprintf("second Execute: stdout=%q err=%q files=%v execs=%v opens=%v", w.Stdout, normErr(w), w.Files, w.Execs, w.Opens),
+					Model: fmt.Sprintf("new interpreter: stdout=%q err=%q files=%v execs=%v opens=%v", cold.Stdout, normErr(cold), cold.Files, cold.Execs, cold.Opens),
+					Note:  fmt.Sprintf("custom OpenFile=%v warm=%d program:\n%s", wr.WHook, wr.WMode, src)})
+			}
+			oracleW(k, wr.WHook, wr.WMode, w, rep)
+		}
 	}
 	stdinOracle(rep, root)
 	if os.Getenv("C12_TIMING") != "" {
@@ -1444,7 +1574,11 @@ func replay(o hx.Opts, root string) int {
 			return 2
 		}
 		hook, _ := doc.Failure.Detail["custom_OpenFile"].(bool)
-		obs, err := runImpl(k, hook, root)
+		warm := 0
+		if wf, ok := doc.Failure.Detail["warm"].(float64); ok {
+			warm = int(wf)
+		}
+		obs, err := runImplW(k, hook, root, warm)
 		if err != nil {
 			fmt.Println(err)
 			return 2
@@ -1452,7 +1586,11 @@ func replay(o hx.Opts, root string) int {
 		src, _ := k.program()
 		fmt.Printf("program:\n%sargs: %q flags(noExec,noFileWrites,noFileReads,noArgVars)=%s custom OpenFile=%v\n", src, k.Args, k.flagStr(), hook)
 		fmt.Printf("error: %q\nstdout: %q\nstderr: %q\nopens: %v\nexecs: %v\nnew files: %v\n", obs.Err, obs.Stdout, obs.Stderr, obs.Opens, obs.Execs, newFiles(obs.Files))
-		oracle(k, hook, obs, rep)
+		if warm > 0 {
+			oracleW(k, hook, warm, obs, rep)
+		} else {
+			oracle(k, hook, obs, rep)
+		}
 	}
 	for _, f := range rep.Failures {
 		fmt.Printf("STILL FAILS: class=%s oracle=%s expected=%v\n", f.Class, f.Oracle, f.Detail["expected"])
